@@ -12,6 +12,8 @@ PAIRS=(
   "bot/verif_export_overlay.go=bot_export.go"
   "server/auth/verif_export_overlay.go=serverauth_export.go"
   "yggdrasil/user/verif_export_overlay.go=user_export.go"
+  "server/internal/bvh/verif_export_overlay.go=bvh_export.go"
+  "server/verif_bvh_export_overlay.go=server_bvh_export.go"
 )
 # server/keepalive.go: the exported API has no handle on time (two unexported constants). A copy of the file as it
 # is in $REPO, with nothing but `const` -> `var` on those two declarations, replaces it for the build; the shim
